@@ -45,6 +45,8 @@ type c11Case struct {
 	Uni    bool   `json:"unicode_white_space_alphabet,omitempty"` // square over {'/','a',' ',U+00A0,U+3000,U+0085,U+2003}, <= 3 characters
 	Redisp bool   `json:"redispatched_with_handlecontext,omitempty"`
 	Late   bool   `json:"option_applied_with_WithOptions_after_New,omitempty"`
+	// Reattach: ONE Route value is attached to a router of the other StrictLastSlash setting first, then to the router under test
+	Reattach bool `json:"route_value_attached_to_another_router_first,omitempty"`
 }
 
 var c11UniAlphabet = []rune{'/', 'a', ' ', '\u00a0', '\u3000', '\u0085', '\u2003'}
@@ -145,6 +147,12 @@ func c11Gen(tier string, emit func(c11Case)) {
 			emit(c11Case{Kind: "square", Strict: strict, P: p, L: 3, Uni: true})
 		}
 	}
+	// one Route value attached to a router of the other strictness first
+	// (only in this direction: a non-strict router trims the trailing slashes off the Route value itself, so a strict
+	// router that gets the value afterwards is handed another definition)
+	for _, p := range c11Get(4).strs {
+		emit(c11Case{Kind: "square", Strict: false, P: p, L: 4, Reattach: true})
+	}
 	// the option given to WithOptions after New() instead of to New()
 	for _, p := range c11Get(4).strs {
 		emit(c11Case{Kind: "square", Strict: true, P: p, L: 4, Late: true})
@@ -198,6 +206,9 @@ func c11Run(c c11Case, st *fw.Stats) []fw.Viol {
 		if c.Late {
 			sm += " (applied with WithOptions after New())"
 		}
+		if c.Reattach {
+			sm += fmt.Sprintf(" (the Route value was attached to a router with strict=%v first)", !c.Strict)
+		}
 		var r *rux.Router
 		var rt *rux.Route
 		if pv := try(func() {
@@ -206,6 +217,14 @@ func c11Run(c c11Case, st *fw.Stats) []fw.Viol {
 				r.WithOptions(c11Opts(c.Strict)...)
 			} else {
 				r = rux.New(c11Opts(c.Strict)...)
+			}
+			if c.Reattach {
+				rt = rux.NewRoute(c.P, h, "GET")
+				other := rux.New(c11Opts(!c.Strict)...)
+				rt.AttachTo(other)
+				other.Match("GET", c.P)
+				rt.AttachTo(r)
+				return
 			}
 			rt = r.GET(c.P, h)
 		}); pv != nil {
@@ -577,7 +596,7 @@ func c11Run(c c11Case, st *fw.Stats) []fw.Viol {
 var c11Spec = fw.Spec[c11Case]{
 	ID:    "C11",
 	Level: "model_checking",
-	Rule: "complete enumeration: ALL strings of length <=L over {'/',' ','.','a','b',TAB} as registered path P and as request path Q - the full P x Q square in both StrictLastSlash modes (and again for all strings of <=3 characters over {'/','a',space,U+00A0,U+3000,U+0085,U+2003}, and for all strings of <=4 characters with StrictLastSlash applied through WithOptions after New()) (one evaluation = one GET and one HEAD lookup of Q on a router holding GET P; reach <=> Norm(Q)==Norm(P)); " +
+	Rule: "complete enumeration: ALL strings of length <=L over {'/',' ','.','a','b',TAB} as registered path P and as request path Q - the full P x Q square in both StrictLastSlash modes (and again for all strings of <=3 characters over {'/','a',space,U+00A0,U+3000,U+0085,U+2003}, and for all strings of <=4 characters with StrictLastSlash applied through WithOptions after New(), and, without StrictLastSlash, with the Route value attached to a StrictLastSlash router first) (one evaluation = one GET and one HEAD lookup of Q on a router holding GET P; reach <=> Norm(Q)==Norm(P)); " +
 		"all G x P x Q over strings of length <=3 for group prefixes and all nested G1 x G2 x P over strings of length <=2; all raw paths of <=4 tokens over {/,a,b,%2F,%2f,%20,space,|,%7C}, each with four RequestURI values (absent, equal, stale prefix, *) under both UseEncodedPath settings (directly and handed on by a front router with HandleContext); 8 dynamic routes with dots in their literal text against all request strings of <=6 characters over {/,.,a,b,x} (and 5 routes with dots in a literal head of two or three path nodes against all strings of <=8 / 9 characters); all request histories of <=3 over 8 paths with and without trailing slashes on caching routers (capacity 1, 2, 8) in both StrictLastSlash modes; static, multi-segment and dynamic routes of every length 1..300 bytes under three methods with nine request variations each; InterceptAll(p) with the route registered as p for all strings p of length <=3, in every option order, against all requests of length <=2; non-trivial = a (P,Q) pair that must reach the route / an escaped path that differs from the decoded one",
 	Assume: []string{"alphabet of 6 characters; L=5 quick, 6 thorough", "net/url's EscapedPath is taken as the definition of 'the escaped path'"},
 	Bounds: func(tier string) map[string]any {
